@@ -71,114 +71,103 @@ example : ∃ (s s' : St) (l : List (Nat × List Nat)), 2 * s.mds ≤ s.cwnd ∧
   ⟨{ bytes := 1200, s2 := { tl := some 0, sent := [{ pn := 0, ts := 0, elic := true, cc := true, size := 1200, st := PSt.I }] } },
    _, _, by decide, rfl, by decide⟩
 
-/-! ## an acknowledged packet is never declared lost; loss needs one of the two thresholds -/
+/-! ## a packet is declared lost only when a later packet has been acknowledged and one of the two thresholds holds;
+an acknowledged packet is never declared lost
 
-/-- Every packet number handed to `may_loss` by a detection pass belongs to a packet that was `Inflight` (so
-neither `Acked` nor already reported) and satisfies the time threshold or the (index-based) packet threshold;
-packets already `Acked` stay in the list untouched. -/
-theorem acked_never_lost (s s' : St) (e ld : Nat) (lost : List Nat) (h : detectLost s e ld = .ok (s', lost)) :
-    ∀ pn ∈ lost, ∃ p ∈ (getSp s e).sent, p.pn = pn ∧ p.st = PSt.I := by
-  intro pn hpn
-  unfold detectLost at h
-  simp only at h
-  split at h
-  · cases h; simp at hpn
-  · split at h
-    · cases h
-    · cases h
-      simp only [List.mem_map] at hpn
-      obtain ⟨x, hx, rfl⟩ := hpn
-      obtain ⟨p, hp, hI, hx2, _⟩ := lossWalk_lost _ _ _ _ _ _ x hx
-      exact ⟨p, hp, by rw [hx2], hI⟩
-
-/-- the two thresholds, as the code computes them: older than `loss_delay + max_ack_delay`, or at least
-`PACKET_THRESHOLD = 3` positions before the position of the largest acknowledged number in the sent list -/
-theorem lost_needs_threshold (s s' : St) (e ld : Nat) (lost : List Nat) (h : detectLost s e ld = .ok (s', lost)) :
-    ∀ pn ∈ lost, ∃ p ∈ (getSp s e).sent, p.pn = pn ∧ p.st = PSt.I ∧
-      (p.ts + ld + (getSp s e).mad < s.now ∨
-       ∃ idx, idx + 3 ≤ bsearch (getSp s e).sent ((getSp s e).la.getD 0)) := by
-  intro pn hpn
-  unfold detectLost at h
-  simp only at h
-  split at h
-  · cases h; simp at hpn
-  · split at h
-    · cases h
-    · cases h
-      simp only [List.mem_map] at hpn
-      obtain ⟨x, hx, rfl⟩ := hpn
-      obtain ⟨p, hp, hI, hx2, hthr⟩ := lossWalk_lost _ _ _ _ _ _ x hx
-      refine ⟨p, hp, by rw [hx2], hI, ?_⟩
-      rcases hthr with ht | ht
-      · left; omega
-      · right; exact ⟨x.1, by simpa [packetThreshold] using ht⟩
-
-
-/-- the detection pass leaves every packet that is not `Inflight` (in particular every `Acked` one) in the list, unchanged -/
-theorem acked_untouched_by_detection (T ld L : Nat) (l : List Pkt) (k : Nat) (lt : Option Nat) (q : Pkt)
-    (hq : q ∈ l) (hst : q.st = PSt.A) : q ∈ (lossWalk T ld L l k lt).1 :=
-  lossWalk_keeps T ld L l k lt q hq (by rw [hst]; decide)
-
-example : ∃ q : Pkt, q ∈ [({ pn := 0, ts := 0, elic := true, cc := true, size := 1, st := PSt.A } : Pkt)] ∧ q.st = PSt.A :=
-  ⟨_, List.mem_cons_self, rfl⟩
-
-/-! ## FALSE of the unchanged code: a packet is declared lost although no later packet was acknowledged -/
+(`fix-C13-loss-needs-later-ack`: before it, `loss_time` was armed on every send and the time threshold applied to
+packets above the largest acknowledged one — one packet, no ACK ever, was declared lost after 37.125 ms.) -/
 
 def inp0 : Inp :=
   { ld0 := 37124999, ld1 := 37124999, srtt0 := 33000000, rttvar0 := 16500000, srtt1 := 33000000, rttvar1 := 16500000 }
 
-/-- fixed case 0 of the harness (replayed on the real `ArcCC` on every run): client, anti-amplification limit
-released, one ack-eliciting Initial packet, no ACK ever, tick after 37.125 ms -/
-def hist0 : List (Inp × Op) := [(inp0, .grant), (inp0, .sent 0 0 true true 1200)]
-def w0 : St := (initSt false 1200 25000000).toOption.getD {}
-def w1 : St := (run w0 hist0).toOption.getD {}
-def w2 : St × Out := (step w1 inp0 (.tick 37125000)).toOption.getD ({}, {})
-
-/-- the property's first clause, for all histories -/
-def LostNeedsLaterAck : Prop :=
-  ∀ (server : Bool) (mtu mad : Nat) (h : List (Inp × Op)) (i : Inp) (op : Op) (s0 s s' : St) (o : Out),
-    initSt server mtu mad = .ok s0 → run s0 h = .ok s → step s i op = .ok (s', o) →
-    ∀ e pns, (e, pns) ∈ o.lost → ∀ pn ∈ pns, ∃ la, (getSp s' e).la = some la ∧ pn < la
-
-theorem lost_needs_later_ack_fails : ¬ LostNeedsLaterAck := by
-  intro h
-  have h0 : initSt false 1200 25000000 = .ok w0 := rfl
-  have h1 : run w0 hist0 = .ok w1 := rfl
-  have h2 : step w1 inp0 (.tick 37125000) = .ok (w2.1, w2.2) := rfl
-  have hl : (0, [0]) ∈ w2.2.lost := by decide
-  have hnone : (getSp w2.1 0).la = none := by decide
-  obtain ⟨la, hla, _⟩ := h false 1200 25000000 hist0 inp0 (.tick 37125000) w0 w1 w2.1 w2.2 h0 h1 h2 0 [0] hl 0 (by decide)
-  rw [hnone] at hla
-  cases hla
-
-/-- what does hold, for every state whose sent list is sorted by packet number (C07): a packet is declared lost
-only if it was `Inflight` and is older than the time threshold, or a packet at least three numbers later has been
-covered by an ACK frame (`largest_acked ≥ pn + 3`) -/
-theorem lost_needs_threshold_pn (s s' : St) (e ld : Nat) (lost : List Nat)
-    (h : detectLost s e ld = .ok (s', lost)) (hs : Sorted (getSp s e).sent) :
-    ∀ pn ∈ lost, ∃ p ∈ (getSp s e).sent, p.pn = pn ∧ p.st = PSt.I ∧
-      (p.ts + ld + (getSp s e).mad < s.now ∨ ∃ la, (getSp s e).la = some la ∧ pn + 3 ≤ la) :=
-  detectLost_pn h hs
-
-/-- the full clause holds exactly when the time threshold does not fire: if no packet of the space is older than
-`loss_delay + max_ack_delay`, every packet declared lost has a later acknowledged packet, three or more numbers ahead -/
-theorem lost_needs_later_ack_partial (s s' : St) (e ld : Nat) (lost : List Nat)
-    (h : detectLost s e ld = .ok (s', lost)) (hs : Sorted (getSp s e).sent)
-    (hyoung : ∀ p ∈ (getSp s e).sent, ¬ p.ts + ld + (getSp s e).mad < s.now) :
-    ∀ pn ∈ lost, ∃ la, (getSp s e).la = some la ∧ pn + 3 ≤ la := by
+/-- Every packet number handed to `may_loss` by a detection pass, in every state: an acknowledgement has been
+received in that space, the number is not above the largest acknowledged one, it belongs to a packet that was
+`Inflight` (so neither `Acked` nor already reported), and that packet is older than `loss_delay + max_ack_delay`
+or lies at least `PACKET_THRESHOLD = 3` sent-list positions before the entry of the largest acknowledged number. -/
+theorem lost_needs_later_ack (s s' : St) (e ld : Nat) (lost : List Nat) (h : detectLost s e ld = .ok (s', lost)) :
+    ∀ pn ∈ lost, ∃ la, (getSp s e).la = some la ∧ pn ≤ la ∧ ∃ p ∈ (getSp s e).sent, p.pn = pn ∧ p.st = PSt.I ∧
+      (p.ts + ld + (getSp s e).mad < s.now ∨ ∃ idx, idx + 3 ≤ bsearch (getSp s e).sent la) := by
   intro pn hpn
-  obtain ⟨p, hp, _, _, h3⟩ := detectLost_pn h hs pn hpn
-  rcases h3 with h3 | h3
-  · exact absurd h3 (hyoung p hp)
-  · exact h3
+  unfold detectLost at h
+  split at h
+  · cases h; simp at hpn
+  · rename_i la hla
+    refine ⟨la, hla, ?_⟩
+    unfold detectLostLa at h
+    simp only at h
+    split at h
+    · cases h; simp at hpn
+    · split at h
+      · cases h
+      · cases h
+        simp only [List.mem_map] at hpn
+        obtain ⟨x, hx, rfl⟩ := hpn
+        obtain ⟨p, hp, hI, hx2, hthr, hle⟩ := lossWalk_lost _ _ _ _ _ _ _ x hx
+        have hpn : x.2.pn = p.pn := by rw [hx2]
+        refine ⟨by omega, p, hp, hpn.symm, hI, ?_⟩
+        rcases hthr with ht | ht
+        · left; omega
+        · right; exact ⟨x.1, by simpa [packetThreshold] using ht⟩
 
 /-- non-vacuity: five packets, the last acknowledged, nothing old: 0 and 1 are declared lost, `largest_acked = 4` -/
 def spW : Space :=
   { la := some 4, sent := (List.range 5).map fun k =>
       { pn := k, ts := 100, elic := true, cc := true, size := 1200, st := if k == 4 then PSt.A else PSt.I } }
 example : (detectLost { now := 100, s2 := spW } 2 50).toOption.map (·.2) = some [0, 1] := by decide
+
+/-- an acknowledged packet is never declared lost -/
+theorem acked_never_lost (s s' : St) (e ld : Nat) (lost : List Nat) (h : detectLost s e ld = .ok (s', lost)) :
+    ∀ pn ∈ lost, ∃ p ∈ (getSp s e).sent, p.pn = pn ∧ p.st = PSt.I := by
+  intro pn hpn
+  obtain ⟨_, _, _, p, hp, h1, h2, _⟩ := lost_needs_later_ack s s' e ld lost h pn hpn
+  exact ⟨p, hp, h1, h2⟩
+
+/-- before the first acknowledgement in a space nothing is ever declared lost there (fixed case 0 of the harness:
+client, one Initial packet, no ACK: only probe timeouts follow) -/
+theorem nothing_lost_before_first_ack (s s' : St) (e ld : Nat) (lost : List Nat)
+    (h : detectLost s e ld = .ok (s', lost)) (hla : (getSp s e).la = none) : lost = [] := by
+  unfold detectLost at h
+  rw [hla] at h
+  cases h; rfl
+
+example : ∃ s : St, (getSp s 0).la = none := ⟨{}, rfl⟩
+
+/-- if the largest acknowledged number itself is not `Inflight` (ACK frames acknowledge what was sent: the packet
+carrying that number was marked `Acked`), "not above" is "strictly below": a *later* packet has been acknowledged -/
+theorem lost_strictly_older (s s' : St) (e ld : Nat) (lost : List Nat) (h : detectLost s e ld = .ok (s', lost))
+    (hacked : ∀ p ∈ (getSp s e).sent, p.st = PSt.I → (getSp s e).la ≠ some p.pn) :
+    ∀ pn ∈ lost, ∃ la, (getSp s e).la = some la ∧ pn < la := by
+  intro pn hpn
+  obtain ⟨la, hla, hle, p, hp, h1, h2, _⟩ := lost_needs_later_ack s s' e ld lost h pn hpn
+  refine ⟨la, hla, ?_⟩
+  have := hacked p hp h2
+  rw [hla, h1] at this
+  have : pn ≠ la := fun h => this (by rw [h])
+  omega
+
+example : ∀ p ∈ (getSp { now := 100, s2 := spW } 2).sent, p.st = PSt.I → (getSp { now := 100, s2 := spW } 2).la ≠ some p.pn := by
+  decide
+
+/-- the detection pass leaves every packet that is not `Inflight` (in particular every `Acked` one) in the list, unchanged -/
+theorem acked_untouched_by_detection (T ld L la : Nat) (l : List Pkt) (k : Nat) (lt : Option Nat) (q : Pkt)
+    (hq : q ∈ l) (hst : q.st = PSt.A) : q ∈ (lossWalk T ld L la l k lt).1 :=
+  lossWalk_keeps T ld L la l k lt q hq (by rw [hst]; decide)
+
+example : ∃ q : Pkt, q ∈ [({ pn := 0, ts := 0, elic := true, cc := true, size := 1, st := PSt.A } : Pkt)] ∧ q.st = PSt.A :=
+  ⟨_, List.mem_cons_self, rfl⟩
+
+/-- on a sent list sorted by packet number (C07) the packet threshold is the RFC's: `largest_acked ≥ pn + 3` -/
+theorem lost_needs_threshold_pn (s s' : St) (e ld : Nat) (lost : List Nat)
+    (h : detectLost s e ld = .ok (s', lost)) (hs : Sorted (getSp s e).sent) :
+    ∀ pn ∈ lost, ∃ la, (getSp s e).la = some la ∧ pn ≤ la ∧ ∃ p ∈ (getSp s e).sent, p.pn = pn ∧ p.st = PSt.I ∧
+      (p.ts + ld + (getSp s e).mad < s.now ∨ pn + 3 ≤ la) :=
+  detectLost_pn h hs
+
 example : Sorted (getSp { now := 100, s2 := spW } 2).sent := by
   unfold Sorted; decide
+
+def hist0 : List (Inp × Op) := [(inp0, .grant), (inp0, .sent 0 0 true true 1200)]
+def w0 : St := (initSt false 1200 25000000).toOption.getD {}
 
 /-- For every history from `ArcCC::new` whose sends use increasing packet numbers per space (`MonoHist`, the
 caller's obligation proved for the sent journal in C07), the three sent lists stay sorted by packet number … -/
@@ -187,13 +176,13 @@ theorem sent_lists_sorted (server : Bool) (mtu mad : Nat) (s0 s : St) (h : List 
     Sorted (getSp s e).sent :=
   (run_sorted hr (initSt_sorted hi) hm).get e
 
-/-- … hence in every reachable state a detection pass declares lost only `Inflight` packets that are older than the
-time threshold or at least three packet numbers below the largest acknowledged one. -/
-theorem lost_needs_threshold_reachable (server : Bool) (mtu mad : Nat) (s0 s s' : St) (h : List (Inp × Op))
+/-- … hence in every reachable state a detection pass declares lost only `Inflight` packets at or below the largest
+acknowledged number that are older than the time threshold or at least three packet numbers below it. -/
+theorem lost_needs_later_ack_reachable (server : Bool) (mtu mad : Nat) (s0 s s' : St) (h : List (Inp × Op))
     (hi : initSt server mtu mad = .ok s0) (hr : run s0 h = .ok s) (hm : MonoHist s0 h)
     (e ld : Nat) (lost : List Nat) (hd : detectLost s e ld = .ok (s', lost)) :
-    ∀ pn ∈ lost, ∃ p ∈ (getSp s e).sent, p.pn = pn ∧ p.st = PSt.I ∧
-      (p.ts + ld + (getSp s e).mad < s.now ∨ ∃ la, (getSp s e).la = some la ∧ pn + 3 ≤ la) :=
+    ∀ pn ∈ lost, ∃ la, (getSp s e).la = some la ∧ pn ≤ la ∧ ∃ p ∈ (getSp s e).sent, p.pn = pn ∧ p.st = PSt.I ∧
+      (p.ts + ld + (getSp s e).mad < s.now ∨ pn + 3 ≤ la) :=
   detectLost_pn hd (sent_lists_sorted server mtu mad s0 s h hi hr hm e)
 
 example : MonoHist w0 hist0 := by
@@ -206,32 +195,31 @@ example : MonoHist w0 hist0 := by
   rw [hnil] at hq
   cases hq
 
-/-! ## FALSE of the unchanged code: the probe timeout does not double -/
+/-- fixed case 0 on the model: after 37.125 ms (the old time threshold) and after 99 ms (the first probe timeout)
+nothing is reported lost, the window is untouched, one probe is requested -/
+example : ((run w0 (hist0 ++ [(inp0, .tick 37125000), (inp0, .tick 61875000)])).toOption.map
+    fun s => (s.cwnd, s.pto, s.s0.need, s.s0.sent.map (·.st))) = some (12000, 1, 1, [PSt.I]) := by decide
 
-/-- `pto (n+1) = 2 · pto n` for every RTT estimate, max_ack_delay and space -/
-theorem pto_doubles_fails : ¬ (∀ srtt rttvar mad n data,
-    ptoInterval srtt rttvar mad (n + 1) data = 2 * ptoInterval srtt rttvar mad n data) := by
-  intro h
-  have := h 33000000 16500000 0 0 false
-  revert this
-  decide
+/-! ## the probe timeout doubles
 
-/-- only the variance term (and `max_ack_delay`) is scaled: the exact law of `Rtt::base_pto` -/
-theorem pto_variance_term_doubles (srtt rttvar mad n : Nat) (data : Bool) :
-    ptoInterval srtt rttvar mad (n + 1) data + srtt = 2 * ptoInterval srtt rttvar mad n data := by
+(`fix-C13-pto-backoff`: before it only `max(4·rttvar, 1 ms)` was scaled by `2^pto_count`.) -/
+
+/-- `pto (n+1) = 2 · pto n` for every RTT estimate, max_ack_delay and space (`Rtt::base_pto`, `get_pto`,
+`get_pto_time_and_epoch`) -/
+theorem pto_doubles (srtt rttvar mad n : Nat) (data : Bool) :
+    ptoInterval srtt rttvar mad (n + 1) data = 2 * ptoInterval srtt rttvar mad n data := by
   have e1 : ∀ a b : Nat, a * (b * 2) = 2 * (a * b) := by
     intro a b; rw [Nat.mul_comm b 2, Nat.mul_left_comm]
   unfold ptoInterval basePto
   rw [Nat.pow_succ]
   split <;> simp only [e1] <;> omega
 
-/-- doubling holds exactly when the smoothed RTT is zero -/
-theorem pto_doubles_partial (srtt rttvar mad n : Nat) (data : Bool) (h0 : srtt = 0) :
-    ptoInterval srtt rttvar mad (n + 1) data = 2 * ptoInterval srtt rttvar mad n data := by
-  have := pto_variance_term_doubles srtt rttvar mad n data
-  omega
-
-example : ptoInterval 0 16500000 0 1 false = 2 * ptoInterval 0 16500000 0 0 false := by decide
+/-- hence the interval after `n` consecutive timeouts is `2^n` times the base interval -/
+theorem pto_exponential (srtt rttvar mad n : Nat) (data : Bool) :
+    ptoInterval srtt rttvar mad n data = 2 ^ n * ptoInterval srtt rttvar mad 0 data := by
+  induction n with
+  | zero => simp
+  | succ k ih => rw [pto_doubles, ih, Nat.pow_succ, Nat.mul_comm (2 ^ k) 2, Nat.mul_assoc]
 
 /-! ## FALSE of the unchanged code: the window shrinks more than once per round trip -/
 
@@ -331,51 +319,79 @@ example : ∃ s s' : St, setTimer s 33000000 16500000 = .ok s' ∧ s.aaLimit = f
    _, rfl, rfl, by decide⟩
 
 
-/-! ## FALSE of the unchanged code: the PTO backoff is forgotten whenever a client sends a Handshake packet -/
+/-! ## sending never forgets the PTO backoff
 
-/-- sending a packet never lowers `pto_count` (the backoff is reset by acknowledgements and by discarding keys only) -/
-def SendKeepsBackoff : Prop :=
-  ∀ (s s' : St) (i : Inp) (e pn : Nat) (elic infl : Bool) (size : Nat),
-    onPktSent s i e pn elic infl size = .ok s' → s.pto ≤ s'.pto
+(`fix-C13-discard-once`: before it, `ArcCC::on_pkt_sent` reset `pto_count` through `discard_epoch(Initial)` on every
+Handshake packet a client sent.) -/
 
-/-- fixed case 5 of the harness: `ArcCC::on_pkt_sent` calls `discard_epoch(Initial)` — which sets
-`pto_count = 0` — on *every* Handshake packet a client sends, so a client whose Handshake packets go
-unanswered probes at a constant interval and never reaches `TooManyPtos` -/
-theorem send_keeps_backoff_fails : ¬ SendKeepsBackoff := by
-  intro h
-  have := h { pto := 3, aaLimit := false, hsKey := true }
-    ((onPktSent { pto := 3, aaLimit := false, hsKey := true } inp0 1 0 true true 300).toOption.getD {})
-    inp0 1 0 true true 300 rfl
-  revert this
-  decide
+theorem setSp_keeps (x : St) (e : Nat) (sp : Space) :
+    (setSp x e sp).pto = x.pto ∧ (setSp x e sp).server = x.server ∧ (setSp x e sp).disc0 = x.disc0 ∧
+    (setSp x e sp).disc1 = x.disc1 := by
+  unfold setSp; split <;> exact ⟨rfl, rfl, rfl, rfl⟩
 
-theorem send_keeps_backoff_partial (s s' : St) (i : Inp) (e pn : Nat) (elic infl : Bool) (size : Nat)
-    (h : onPktSent s i e pn elic infl size = .ok s') (hne : s.server = true ∨ e ≠ 1) : s.pto ≤ s'.pto := by
-  have hsp : ∀ (x : St) (e : Nat) (sp : Space), (setSp x e sp).pto = x.pto ∧ (setSp x e sp).server = x.server := by
-    intro x e sp; unfold setSp; split <;> exact ⟨rfl, rfl⟩
+/-- discarding a space resets the backoff only the first time, and marks the space -/
+theorem discard_resets_once (s s' : St) (e srtt rttvar : Nat) (h : discardEpoch s e srtt rttvar = .ok s') :
+    isDiscarded s' e = true ∧ (isDiscarded s e = true → s'.pto = s.pto) := by
+  unfold discardEpoch at h
+  split at h
+  · cases h
+  · simp only [ebind_ok] at h
+    obtain ⟨bytes, _, h2⟩ := h
+    rw [setTimer_eq h2]
+    have k := setSp_keeps { s with bytes := bytes } e { getSp s e with sent := [], tl := none, lt := none }
+    unfold discardReset
+    simp only
+    cases hd : isDiscarded s e
+    · simp only [Bool.false_eq_true, if_false]
+      refine ⟨?_, fun h => by cases h⟩
+      cases e with
+      | zero => rfl
+      | succ n => rfl
+    · simp only [if_true]
+      refine ⟨?_, fun _ => k.1⟩
+      unfold isDiscarded at hd ⊢
+      split at hd
+      · simp only; rw [k.2.2.1]; exact hd
+      · simp only; rw [k.2.2.2]; exact hd
+
+example : ∃ s s' : St, discardEpoch s 0 1 1 = .ok s' ∧ isDiscarded s 0 = true ∧ s.pto = 3 :=
+  ⟨{ disc0 := true, pto := 3 }, _, rfl, rfl, rfl⟩
+
+/-- Sending a packet never lowers `pto_count`, except for the one Handshake packet with which a client discards
+its Initial keys (RFC 9002 §6.2.2.1 / A.10: discarding keys resets the backoff). -/
+theorem send_keeps_backoff (s s' : St) (i : Inp) (e pn : Nat) (elic infl : Bool) (size : Nat)
+    (h : onPktSent s i e pn elic infl size = .ok s') (hne : s.disc0 = true ∨ s.server = true ∨ e ≠ 1) :
+    s.pto ≤ s'.pto := by
   unfold onPktSent at h
   simp only [ebind_ok] at h
-  obtain ⟨s1, h1, h2⟩ := h
-  have k1 : s1.pto = s.pto ∧ s1.server = s.server := by
-    split at h1
-    · rw [setTimer_eq h1]
-      unfold sentInflight
-      exact hsp _ _ _
-    · cases h1; exact ⟨rfl, rfl⟩
-  have k2 := hsp s1 e { getSp s1 e with sent := (getSp s1 e).sent ++ [{ pn := pn, ts := s.now, elic := elic, cc := infl, size := size, st := PSt.I }] }
-  unfold pushPkt at h2
-  simp only at h2
+  obtain ⟨s3, h1, h2⟩ := h
+  have k3 : s3.pto = s.pto ∧ s3.server = s.server ∧ s3.disc0 = s.disc0 := by
+    cases infl
+    · simp only [Bool.false_eq_true, if_false] at h1
+      cases h1
+      unfold pushPkt
+      have := setSp_keeps s e { getSp s e with sent := (getSp s e).sent ++ [{ pn := pn, ts := s.now, elic := elic, cc := false, size := size, st := PSt.I }] }
+      exact ⟨this.1, this.2.1, this.2.2.1⟩
+    · simp only [if_true] at h1
+      rw [setTimer_eq h1]
+      unfold pushPkt sentInflight
+      simp only
+      have a1 := setSp_keeps { s with bytes := s.bytes + size } e (if elic then { getSp s e with tl := some s.now, need := (getSp s e).need - 1 } else getSp s e)
+      have a2 := setSp_keeps (setSp { s with bytes := s.bytes + size } e (if elic then { getSp s e with tl := some s.now, need := (getSp s e).need - 1 } else getSp s e)) e
+        { getSp (setSp { s with bytes := s.bytes + size } e (if elic then { getSp s e with tl := some s.now, need := (getSp s e).need - 1 } else getSp s e)) e with
+          sent := (getSp (setSp { s with bytes := s.bytes + size } e (if elic then { getSp s e with tl := some s.now, need := (getSp s e).need - 1 } else getSp s e)) e).sent ++ [{ pn := pn, ts := s.now, elic := elic, cc := true, size := size, st := PSt.I }] }
+      exact ⟨a2.1.trans a1.1, a2.2.1.trans a1.2.1, a2.2.2.1.trans a1.2.2.1⟩
   split at h2
   · rename_i hc
     simp only [Bool.and_eq_true, beq_iff_eq, Bool.not_eq_true'] at hc
-    rw [k2.2, k1.2] at hc
-    rcases hne with hs | he
-    · rw [hs] at hc; cases hc.2
+    rcases hne with hd | hs | he
+    · have := (discard_resets_once s3 s' 0 _ _ h2).2 (by unfold isDiscarded; rw [k3.2.2]; exact hd)
+      omega
+    · rw [k3.2.1, hs] at hc; cases hc.2
     · exact absurd hc.1 he
-  · cases h2
-    rw [k2.1, k1.1]
-    exact Nat.le_refl _
+  · cases h2; omega
 
-example : ∃ (s s' : St), onPktSent s inp0 2 0 true true 300 = .ok s' := ⟨{}, _, rfl⟩
+example : ∃ (s s' : St), onPktSent s inp0 1 0 true true 300 = .ok s' ∧ s.disc0 = true ∧ s.pto = 3 ∧ s'.pto = 3 :=
+  ⟨{ disc0 := true, pto := 3, aaLimit := false, hsKey := true }, _, rfl, rfl, rfl, by decide⟩
 
 end GmQuic.Props.C13
